@@ -240,7 +240,13 @@ class System:
         self.items = items
         self.data, self.lay, self.info, self.entries, self.pass_list = built(items, layout)
         self.f = CountingBytesIO(self.data)
-        self.fr = File.FileRead(self.f, 'fid', keepGoing=False)
+        if layout.get('pad'):
+            # physical records padded with nulls: opened the way the library's tools open a LIS file of unknown padding
+            self.fr = File.file_read_with_best_physical_record_pad_settings(self.f, 'fid')
+            if self.fr is None:
+                raise RuntimeError('no padding option reads the padded file')
+        else:
+            self.fr = File.FileRead(self.f, 'fid', keepGoing=False)
         self.index = FileIndexer.FileIndex(self.fr)
         self.passes = list(self.index.genLogPasses())
 
@@ -648,7 +654,8 @@ def gen_I(tier):
                             items += ['file_head', ['pass', spec2, 1], 'cons', 'file_tail']
                         if pre:
                             items += ['tape_tail', 'reel_tail']
-                        for layout in ({'maxlen': 65535}, {'maxlen': 40}, {'maxlen': 64, 'tif': 'normal'}, {'maxlen': 65535, 'tif': 'normal'}):
+                        for layout in ({'maxlen': 65535}, {'maxlen': 40}, {'maxlen': 64, 'tif': 'normal'}, {'maxlen': 65535, 'tif': 'normal'},
+                                       {'maxlen': 41, 'pad': 4}, {'maxlen': 63, 'tif': 'normal', 'pad': 2}):
                             ops = [['load', 0, None, None], ['load', 0, [1, 7, 2], [1]], ['load', 0, [4, 5, 1], None]]
                             if second:
                                 ops += [['load', 1, None, None], ['load', 1, [1, 4, 2], [1]]]
